@@ -80,7 +80,7 @@ def run(ctx):
         'hand-written Ansi/Model.v (FSM.process, get_transition priority, action meanings, write_ch) on Screen/Model.v, tied to the code by job ansi-seqs (screen, cursor, parser state and parser memory compared)',
     ]
     ctx.assumptions += ['CSI parameters shorter than CPython\'s int() digit limit (4300 digits): longer ones raise ValueError in CPython (known finding K3, outside the theorem\'s model of int())',
-                        'bytes input is decoded by the screen\'s incremental decoder before parsing (CPython codecs; exercised with cuts inside characters, not proved here - see C07)',
+                        'bytes input is decoded by the screen\'s incremental decoder before parsing: a Mealy machine in the theorems (Ansi/Bytes.v); utf-8 on well-formed streams and latin-1 are executed in Coq (job ansi-bytes), other codecs and malformed streams only on the real code',
                         'DoLog appends to ./log in the current directory (side effect outside the model; checks run in a private scratch directory)']
     os.chdir(ctx.work)
     ok_gen = ctx.regenerate('Gen/AnsiTable.v', lambda: ansi_table.generate(common.REPO))
@@ -88,6 +88,7 @@ def run(ctx):
     from pexpect import ANSI
     rng = ctx.rng
     cases = []
+    bcases = []
     nhit = 0
     stats = {'final_state': {}, 'modes': {'str': 0, 'utf-8': 0, 'latin-1': 0}, 'chunked': 0}
     n = 60000 if thorough else 6000
@@ -99,9 +100,11 @@ def run(ctx):
         if mode == 'latin-1':
             text = ''.join(ch if ord(ch) < 256 else '~' for ch in text)
         data = text if mode == 'str' else text.encode(mode)
+        wellformed = True
         if mode == 'utf-8' and rng.random() < 0.35:
             # malformed input: truncated / stray multi-byte sequences in between (the decoder replaces them); the text the
             # terminal is meant to see is the decoding of the whole input
+            wellformed = False
             for _ in range(rng.randint(1, 3)):
                 k = rng.randrange(len(data) + 1)
                 data = data[:k] + rng.choice([b'\xe2', b'\xe2\x8c', b'\xc3', b'\xff', b'\x8c', b'\xf0\x9f']) + data[k:]
@@ -141,6 +144,10 @@ def run(ctx):
             chunks = pieces if mode == 'str' else [text]
             cases.append(('(%s, %s, %s)' % (cZ(rows), cZ(cols), clist([ctext(c) for c in chunks])), observe(parts),
                           {'rows': rows, 'cols': cols, 'text': text, 'mode': mode, 'pieces': [repr(p) for p in pieces]}))
+            if mode != 'str' and wellformed and len(bcases) < (8000 if thorough else 1200):
+                # the bytes path itself in the model: the same pieces of bytes through the model's incremental decoder and parser
+                bcases.append(('(%s, %s, %s, %s)' % (cZ(rows), cZ(cols), common.cbool(mode == 'utf-8'), clist([ctext(p) for p in pieces])), observe(parts),
+                               {'rows': rows, 'cols': cols, 'mode': mode, 'pieces': [repr(p) for p in pieces]}))
     # known finding K3: a CSI parameter longer than CPython's int() limit
     try:
         t = ANSI.ANSI(3, 4)
@@ -150,6 +157,7 @@ def run(ctx):
     ctx.oracle_stats.update({'inputs': n, 'distribution': stats})
     if os.path.exists(os.path.join(common.COQ, 'Ansi/Run.vo')):
         ctx.run_cases('ansi-seqs', ['Screen.Model', 'Ansi.Model', 'Ansi.Run'], 'run_ansi', 'Z * Z * list (list N)', cases, shard=250)
+        ctx.run_cases('ansi-bytes', ['Screen.Model', 'Ansi.Model', 'Ansi.Run'], 'run_ansi_bytes', 'Z * Z * bool * list (list N)', bcases, shard=250)
     else:
         ctx.corr_broken.append(('ansi-seqs', {'error': 'model did not build'}))
 
